@@ -1,3 +1,5 @@
+# SUPERSEDED: this comparison now runs inside `./check` (corr/c09.py statusx_tie), through the driver binary and seeded from ctx.rng.
+# The stand-alone version below is kept for reference only: it depends on scratch files under /tmp and on a Lean main that no longer exists.
 """Cross-check of PyCraft/Drive/C09Status.lean against the real code (read-only on /repo).
 usage: PYTHONPATH=/repo /venv/bin/python xcheck.py [N]   (prints disagreements; exit 0 iff none)"""
 import sys, json, math, random, subprocess, types, builtins
